@@ -129,6 +129,14 @@ def check(ctx: Ctx):
     upd = [c for c in walk_no_nested(msc.node) if isinstance(c, ast.Call) and norm(c.func) == f"{full}.update"]
     oku = len(upd) == 1 and isinstance(upd[0].args[0], ast.DictComp) and norm(upd[0].args[0].generators[0].iter) == "self.external_variables.values()" \
         and norm(upd[0].args[0].key).endswith(".name") and norm(upd[0].args[0].value).endswith(".value")
+    if not okc:
+        # canonical merged form: full = {**assignment, **{v.name: v.value for v in self.external_variables.values()}}
+        mg = [n for n in msc.node.body if isinstance(n, ast.Assign) and isinstance(n.value, ast.Dict) and len(n.value.keys) == 2 and all(k is None for k in n.value.keys) and norm(n.value.values[0]) == a_p]
+        if len(mg) == 1:
+            dc = mg[0].value.values[1]
+            cp, okc = mg, True
+            full = norm(mg[0].targets[0])
+            oku = isinstance(dc, ast.DictComp) and norm(dc.generators[0].iter) == "self.external_variables.values()" and norm(dc.key).endswith(".name") and norm(dc.value).endswith(".value")
     ctx.check(okc and oku, "R-EXTERNAL", "copy of the assignment completed with external values", msc, cp[0] if cp else msc.node,
               "the caller's assignment must be copied and completed with {external variable name: current value}")
     rets = [r for r in walk_no_nested(msc.node) if isinstance(r, ast.Return)]
